@@ -293,3 +293,19 @@ def template_series(rng, k):
     for n in range(k):
         out.append(("template:%d" % n, t.replace("{n}", str(n + rng.randrange(3))).replace("{pad}", " x |" if (n % 3) else "")))
     return out
+
+
+def enlarge(rng, text):
+    """A file larger than the usual I/O block sizes, multi-byte characters throughout, so that any fixed
+    block boundary (4 KiB, 8 KiB, 64 KiB ...) is likely to fall inside a UTF-8 sequence."""
+    target = rng.choice([4096, 8192, 8192, 16384, 65536]) + rng.randint(1, 3000)
+    nl = "\r\n" if "\r\n" in text else "\n"
+    if text and not text.endswith("\n"):
+        text += nl
+    alphabet = ["\u65e5\u672c\u8a9e", "\u00fcn\u00ef", "\U0001f3ac", "ascii", "\u0416\u0438", "x"]
+    lines, size = [], len(text.encode("utf-8"))
+    while size < target:
+        ln = "# " + " ".join(alphabet[rng.randrange(len(alphabet))] for _ in range(rng.randint(8, 20)))
+        lines.append(ln)
+        size += len(ln.encode("utf-8")) + len(nl)
+    return text + nl.join(lines) + nl, target
